@@ -552,7 +552,46 @@ class StmtMixin:
         return out
 
     def comprehension_nested(self, node, fr):
-        raise Unsupported("comprehension with several generators: " + ast.unparse(node)[:60])
+        """several generators: exec-mode unrolling only (every source of concrete or BOUNDED length)"""
+        st = self.st
+        if self.pure:
+            raise Unsupported("comprehension with several generators in a spec: " + ast.unparse(node)[:60])
+        top = getattr(self, "top_contract", None)
+        bound = top.options.get("comp_bound") if top is not None else None
+        out, ety = [], [None]
+
+        def rec(gi, nf):
+            if gi == len(node.generators):
+                e = self.ev(node.elt, nf)
+                ety[0] = e.ty
+                out.append(self.need_term(e))
+                return
+            gen = node.generators[gi]
+            src = self.ev(gen.iter, nf)
+            if src.meta and src.meta[0] == "genexp":
+                src = self.comprehension_list(src.meta[1], src.meta[2])
+            d = src.meta[1] if (src.meta and src.meta[0] == "lazyiter") else self.iterable(src, nf)
+            n = self.iter_len(d)
+            nc = z3.simplify(n)
+            if not z3.is_int_value(nc):
+                if bound is None:
+                    raise Unsupported("comprehension with several generators over a symbolic-length source: " + ast.unparse(node)[:60])
+                self.bounded_used = True
+                self.assumptions.add(f"BOUNDED: comprehension sources limited to {bound} elements")
+                st.assume(n <= bound)
+                nc = z3.IntVal(st.branch([n == c for c in range(bound + 1)], "comp-len"))
+            for k in range(nc.as_long()):
+                inner = Frame(nf.func, nf.module, None, parent_env=nf)
+                self.assign(gen.target, self.iter_get(d, z3.IntVal(k), nf), inner)
+                ok = True
+                for c in gen.ifs:
+                    if not st.decide(self.truthy(self.ev(c, inner)), "comp-if"):
+                        ok = False
+                        break
+                if ok:
+                    rec(gi + 1, inner)
+        rec(0, Frame(fr.func, fr.module, None, parent_env=fr))
+        return H.list_new(st, out, ty=Ty("list", (ety[0],) if ety[0] else ()))
 
     def quantified_genexp(self, name, node, fr):
         """all(P for x in xs ...) / any(...) -> ForAll / Exists over index variables (several generators allowed)."""
